@@ -40,10 +40,19 @@ class Undefined(Exception):
 
 
 class OdataRef:
-    def __init__(self, fields: Dict[str, Any], consts: Optional[Dict[int, IntV]] = None):
+    def __init__(self, fields: Dict[str, Any], consts: Optional[Dict[int, IntV]] = None, real_div: bool = False):
+        """real_div=True is NOT OData: it is the *adjusted* reading used to recognise one known finding (SQLAlchemy
+        renders `div` as REAL division): `div` yields an exact fraction, arithmetic and comparisons on fractions are
+        exact, everything that needs an integer (mod, substring arguments) truncates toward zero as SQLite does."""
         self.fields = fields
         self.consts = consts or {}
         self.side: List[Any] = []
+        self.real_div = real_div
+        self._frac = None
+        if real_div:
+            from .sqlite_model import SqliteModel
+            self._frac = SqliteModel(None)
+            self._frac.side = self.side            # share the no-overflow side conditions
 
     def keeps(self, term):
         return V.keep(V.to_bool(self.ev(term)))
@@ -68,11 +77,21 @@ class OdataRef:
         if k == "null":
             return NullV()
         if k == "neg":
-            x = V.to_int(self.ev(t[1]))
+            x = self.ev(t[1])
+            if x.kind == "real":
+                self._guard(x.null, z3.BVSNegNoOverflow(x.num))
+                return V.RealV(x.null, -x.num, x.den)
+            x = V.to_int(x)
             self._guard(x.null, z3.BVSNegNoOverflow(x.val))
             return IntV(x.null, -x.val)
         if k == "arith":
-            return self._arith(t[1], V.to_int(self.ev(t[2])), V.to_int(self.ev(t[3])))
+            l, r = self.ev(t[2]), self.ev(t[3])
+            if self.real_div and t[1] != "mod" and (t[1] == "div" or "real" in (l.kind, r.kind)):
+                l, r = V.to_real(l), V.to_real(r)
+                if t[1] == "div":
+                    self._guard(z3.Or(l.null, r.null), r.num != 0)
+                return self._frac._real_bin({"add": "+", "sub": "-", "mul": "*", "div": "/"}[t[1]], l, r)
+            return self._arith(t[1], V.to_int(l), V.to_int(r))
         if k == "cmp":
             return self._cmp(t[1], t[2], t[3])
         if k == "in":
@@ -114,6 +133,8 @@ class OdataRef:
 
     def _eq(self, l, r) -> BoolV:
         l, r = V.unify(l, r)
+        if "real" in (l.kind, r.kind) and "str" not in (l.kind, r.kind):
+            return self._frac._real_cmp("=", V.to_real(l), V.to_real(r))
         null = z3.Or(l.null, r.null)
         if l.kind == "str" and r.kind == "str":
             return BoolV(null, V.s_eq(l, r))
@@ -137,6 +158,8 @@ class OdataRef:
             return self._eq(l, r)
         if op == "ne":
             return V.not3(self._eq(l, r))
+        if "real" in (l.kind, r.kind) and "str" not in (l.kind, r.kind):
+            return self._frac._real_cmp({"lt": "<", "le": "<=", "gt": ">", "ge": ">="}[op], V.to_real(l), V.to_real(r))
         null = z3.Or(l.null, r.null)
         if l.kind == "str" and r.kind == "str":
             lt = V.s_lt(l, r)
@@ -176,7 +199,13 @@ class OdataRef:
             return IntV(x.null, V.len_w(x))
         if name == "substring":
             x = self._s(a[0])
-            i = V.to_int(a[1])
+            if a[1].kind == "real":
+                # adjusted reading only: the statement computes (index + 1) in REAL arithmetic and SUBSTR truncates it
+                one = V.RealV(V.FALSE, V.bv(1), V.bv(1))
+                shifted = V.to_int(self._frac._real_bin("+", a[1], one))
+                i = IntV(shifted.null, shifted.val - 1)
+            else:
+                i = V.to_int(a[1])
             null = z3.Or(x.null, i.null)
             self._guard(null, z3.And(i.val >= 0, i.val <= V.len_w(x)))
             if len(a) == 3:
